@@ -324,14 +324,15 @@ def r_group_helper(ctx: Ctx, rule: str):
         rep.floor(rule, "member cancel steps", len(ctx.distinct_sites(members)), 1)
         for c in ctx.distinct_sites(members):
             rep.ob(rule, "spawners are cancelled before the first member task (no new member can start in between)", dominated_by_completion(g, meta, c), node=c)
-            recv = ctx.vals.resolve(c.func, c.ast.func.value)
+            # the receiver, followed through locals and through the parameters of helpers spliced into this function
+            rfr, renv, recv = ctx.vals.trace(c.func, c.env, c.ast.func.value)
             P = ctx.eff.paths(f)
-            ok = isinstance(recv, ast.Subscript) and ctx.path_at(c, recv.value) == RUN
+            ok = isinstance(recv, ast.Subscript) and ctx.eff.rebase(ctx.eff.paths(rfr).of(recv.value) or "", rfr, renv) == RUN
             key = recv.slice if isinstance(recv, ast.Subscript) else None
             key_ok = False
-            if isinstance(key, ast.Name) and c.func is f:
-                rk = ctx.vals.resolve(f, key)
-                if isinstance(rk, ast.Call):
+            if isinstance(key, ast.Name):
+                kfr, kenv, rk = ctx.vals.trace(rfr, renv, key)
+                if kfr is f and isinstance(rk, ast.Call):
                     key = rk
             if isinstance(key, ast.Call) and isinstance(key.func, ast.Attribute) and key.func.attr == "pop" and not key.args:
                 key_ok = expr_role_reg(ctx, f, key.func.value)
